@@ -106,6 +106,34 @@ def run(ck, facts, tier):
     # Sites are judged per (root function, kind) as a multiset of control depths: the function's own sites, those of the closures nested in it (closure
     # numbering shifts under harmless edits) and those of private helpers extracted from it must fit the reviewed budget — no more sites than reviewed, and an
     # injective matching in which every site sits under at least as many dominating guards as its reviewed counterpart.
+    # succession: reviewed functions that no longer exist (renamed, or merged into one) hand their reviewed budget to an unreviewed function of the same
+    # module whose sites fit into it kind by kind — only rows that need no dominating guard take part
+    existing = {cc.family(n_) for n_ in facts.mir}
+    vanished = sorted({f_ for f_, _ in tab if f_ not in existing})
+    module_of = lambda n_: re.sub(r"<[^<>]*>", "", n_).rsplit("::", 1)[0]
+    succession = {}
+    if vanished:
+        pool = {}
+        for (f_, k_), e_ in tab.items():
+            if f_ in vanished and not any(e_["ctrl"]):
+                pool.setdefault((module_of(f_), k_), []).append(f_)
+        budget_left = {(module_of(f_), k_): sum(len(tab[(g_, k_)]["ctrl"]) for g_ in fs_) for (_, k_), fs_ in pool.items() for f_ in fs_[:1]}
+        for fam_, members_ in sorted(fams.items()):
+            if any((fam_, k_) in tab for _, per_ in members_ for k_ in per_):
+                continue
+            need = {}
+            for _, per_ in members_:
+                for k_, sites_ in per_.items():
+                    need[k_] = need.get(k_, 0) + len(sites_)
+            mod_ = module_of(fam_)
+            if need and all(budget_left.get((mod_, k_), 0) >= c_ for k_, c_ in need.items()):
+                for k_, c_ in need.items():
+                    budget_left[(mod_, k_)] -= c_
+                    src_ = pool[(mod_, k_)]
+                    tab[(fam_, k_)] = {"fn": fam_, "kind": k_, "ctrl": [0] * c_, "class": tab[(src_[0], k_)].get("class", "G"), "reason": "succeeds the reviewed function(s) %s of the same module, which no longer exist: %s"
+                                       % (", ".join(src_), tab[(src_[0], k_)]["reason"])}
+                succession[fam_] = sorted({g_ for k_ in need for g_ in pool[(mod_, k_)]})
+    ck.extra["succession"] = succession
     absorbed, absorbed_fns = absorb_helpers(P, R, fams, {f for f, _ in tab})
     ck.extra["absorbed_helpers"] = sorted(absorbed_fns)
     # sites hoisted from a reviewed function into its only caller (a precondition assert moved up one level): the caller may draw on the callee's unused
